@@ -36,7 +36,7 @@ ASSUMPTIONS = ["pre-emption only at Python line boundaries inside pyjelly (not i
                "hash-seed clause applied to explicit sequences only (rdflib containers iterate in hash order by design)",
                "rdflib Graph/Dataset containers iterate in hash order by design, so only explicit sequences are used"]
 PROBES = ["shipped_statement_runs", "copied_statement_runs", "guessed_options_workloads", "namespace_workloads", "nested_steps", "coop_runs", "thread_runs", "subproc_runs", "shared_options", "neighbour_abandoned", "neighbour_failed",
-          "neighbour_unused", "thread_switches", "parse_workloads", "ser_workloads", "rdflib_workloads", "twin_parsers_equal_options"]
+          "neighbour_unused", "thread_switches", "parse_workloads", "ser_workloads", "rdflib_workloads", "twin_parsers_equal_options", "neighbour_abandoned_parser", "solo_again_after_history"]
 SHRINK_LISTS = ["workloads"]
 
 
@@ -98,6 +98,15 @@ def generate(rng, run, tier):
             nb = gen_workload(rng)
             nb["kind"] = "ser"
             nb["fate"] = rng.choice(["unused", "abandoned", "failed"])
+            nb["when"] = rng.choice(["before", "during"])
+            neighbours.append(nb)
+        if wl[0].get("twin") and rng.random() < 0.5:
+            # a parser over a stream with the very same options that is abandoned half way (inside a graph, for
+            # GRAPHS streams): whatever it leaves behind must not reach the parsers that are observed
+            import copy
+            nb = copy.deepcopy(wl[0])
+            nb.pop("twin", None)
+            nb["fate"] = "abandoned_parser"
             nb["when"] = rng.choice(["before", "during"])
             neighbours.append(nb)
     return {"mode": mode, "workloads": wl, "neighbours": neighbours, "max_gap": rng.choice([3, 8, 24, 64])}
@@ -197,10 +206,34 @@ def outcome_digest(data, res):
 
 
 # ------------------------------------------------------------------ engine A
+POLLUTED = {"by_run_with_violation": False}
+
+
+def base_runs(wl):
+    """Every workload alone, before anything else of this run exists.  State that an EARLIER run of this worker
+    process left behind in pyjelly can make even this fail - only on a tree where that earlier run has itself
+    reported a violation (each run ends by running its workloads alone again); such a run is skipped, not judged,
+    because its plan alone would not reproduce the failure."""
+    try:
+        return [solo(w) for w in wl]
+    except HarnessError:
+        raise
+    except Exception as e:  # noqa: BLE001
+        from simkit.kernel import SkipRun
+        if POLLUTED["by_run_with_violation"]:
+            raise SkipRun(f"state left by an earlier violating run of this process: {type(e).__name__}") from None
+        if type(e).__module__.startswith("pyjelly."):
+            # the writer or reader refuses the generated workload even alone (never on the unchanged tree, where the
+            # tables are fitted to the statements): nothing to compare an interleaved run with; other properties'
+            # checks judge the refusal itself
+            raise SkipRun(f"workload refused when run alone: {type(e).__name__}: {e}") from None
+        raise
+
+
 def coop_side(plan, sim):
     sim.count("coop_runs")
     wl = plan["workloads"]
-    base = [solo(w) for w in wl]
+    base = base_runs(wl)
     sched = coop.Scheduler(sim)
     outs = [io.BytesIO() for _ in wl]
     results = [[] for _ in wl]
@@ -241,6 +274,23 @@ def coop_side(plan, sim):
             continue
         v += compare(i, w, base[i], outs[i].getvalue() if w["kind"] == "ser" else base[i][0],
                      results[i] if w["kind"] == "parse" else None, "coop")
+    if not v:
+        # history: after everything above (neighbours created, abandoned, failed; the interleaved workloads) each
+        # workload run alone once more gives what it gave alone before
+        for i, w in enumerate(wl):
+            try:
+                again = solo(w)
+            except Exception as e:  # noqa: BLE001
+                v.append({"clause": "C12.depends_on_history", "sig": {"engine": "coop", "exc": type(e).__name__},
+                          "msg": f"workload {i} ran alone before the other streams of this run existed; run alone "
+                                 f"again after them it raised {type(e).__name__}: {e}"})
+                break
+            if again != base[i]:
+                v.append({"clause": "C12.depends_on_history", "sig": {"engine": "coop", "kind": w["kind"]},
+                          "msg": f"workload {i} ({w['kind']}) run alone after the other streams of this run gives "
+                                 f"something else than alone before them"})
+                break
+        sim.count("solo_again_after_history")
     return v, (sim.digest() if len(wl) >= 2 else None)
 
 
@@ -251,6 +301,26 @@ def run_neighbour(nb, sim, sched, immediate):
     sim.count("neighbour_" + fate)
     if fate == "unused":
         nodes.make_stream(nb["cfg"])        # created, enrolled never, dropped
+        return
+    if fate == "abandoned_parser":
+        data = solo(dict(nb, kind="ser"))[0]
+        pgen = parse_steps(dict(nb, consumer="flat"), data, [])
+        stop = max(1, len(nb["ops"]) // 2)
+
+        def half():
+            try:
+                for k, _ in enumerate(pgen):
+                    if k >= stop:
+                        break
+                    yield
+            except Exception:  # noqa: BLE001
+                pass
+            pgen.close()
+        if immediate:
+            for _ in half():
+                pass
+        else:
+            sched.spawn("N", half())
         return
     n = len(nb["ops"])
     gen = ser_steps(nb, out, fail_at=(n // 2 if fate == "failed" else None),
@@ -295,7 +365,7 @@ def threads_side(plan, sim):
     sim.count("thread_runs")
     from simkit import repo
     wl = plan["workloads"]
-    base = [solo(w) for w in wl]
+    base = base_runs(wl)
     shared_opts = None
     jobs = []
     for i, w in enumerate(wl):
@@ -382,7 +452,7 @@ def subproc_side(plan, sim):
     import copy
     import pickle
     for i, w in enumerate(wl):
-        data = solo(w)[0]
+        data = base_runs([w])[0][0]
         if shippable(w):
             # the same statement sequence as copies of the objects (copy.deepcopy): same bytes expected
             sim.count("copied_statement_runs")
@@ -457,7 +527,11 @@ def execute(plan, sim):
     if n_g:
         sim.count("guessed_options_workloads", n_g)
     if plan["mode"] == "coop":
-        return coop_side(plan, sim)
-    if plan["mode"] == "threads":
-        return threads_side(plan, sim)
-    return subproc_side(plan, sim)
+        res = coop_side(plan, sim)
+    elif plan["mode"] == "threads":
+        res = threads_side(plan, sim)
+    else:
+        res = subproc_side(plan, sim)
+    if (res[0] if isinstance(res, tuple) else res):
+        POLLUTED["by_run_with_violation"] = True
+    return res
